@@ -243,12 +243,22 @@ def pipeline(body_of, it):
     sees for the visited element, guards = conditions every element that reaches the consumer satisfies (filters),
     skips = guard lists under which an element is filtered out, problems)"""
     from . import mir
-    out = {"base": None, "enum": False, "elem": None, "guards": [], "skips": [], "problems": []}
+    out = {"base": None, "bases": [], "enum": False, "elem": None, "guards": [], "skips": [], "problems": []}
     stages = []
     t = it
+    extra_bases = []
     for _ in range(12):
         if isinstance(t, tuple) and t and t[0] == "clone":
             t = t[1]
+            continue
+        if isinstance(t, tuple) and t and t[0] == "call" and mir.method_name(t[1]) == "chain" and len(t[2]) == 2:
+            # a.chain(b): the elements of a, then those of b; the stages above apply to both
+            other = pipeline(body_of, t[2][1])
+            if other["problems"] or other["guards"] or other["enum"] or other["elem"] != mir.T("elem", other["base"], None):
+                out["problems"].append("chain() with a processed second iterator")
+                return out
+            extra_bases += other["bases"]
+            t = t[2][0]
             continue
         if isinstance(t, tuple) and t and t[0] == "call" and mir.method_name(t[1]) in ("enumerate", "filter", "map", "cloned", "copied", "by_ref", "into_iter") and t[2]:
             stages.append((mir.method_name(t[1]), t[2][1] if len(t[2]) > 1 else None))
@@ -259,6 +269,7 @@ def pipeline(body_of, it):
         out["problems"].append("not an iterator over a collection: %s" % mir.show(t)[:60])
         return out
     out["base"] = t
+    out["bases"] = [t] + extra_bases
     cur = mir.T("elem", t, None)
     for m, clos in reversed(stages):
         if m == "enumerate":
